@@ -85,7 +85,7 @@ def _type_designator(u, raw, e):
     return None
 
 
-def _civil_types(u, f, g, dom, raw, prev, cur):
+def _civil_types(u, f, g, dom, raw, prev, cur, fk=None):
     if len(prev) != 1 or len(cur) != 1:
         return None, 'found %d / %d assignments of prev_civil_sec / civil_sec in Load' % (len(prev), len(cur))
     pk, ck = raw.key(call_args(prev[0])[0]), raw.key(call_args(cur[0])[0])
@@ -99,7 +99,8 @@ def _civil_types(u, f, g, dom, raw, prev, cur):
         calls = [y for y in walk(call_args(x)[1]) if y.get('kind') == 'CXXMemberCallExpr' and callee(y) and callee(y)[1] == 'LocalTime']
         if len(calls) != 1 or len(call_args(calls[0])) != 2:
             return None, None
-        return _type_designator(u, raw, call_args(calls[0])[1]), raw.key(call_args(calls[0])[0])
+        # (the instant may be named through a snapshot local: keyed as the fact engine keys it)
+        return _type_designator(u, raw, call_args(calls[0])[1]), (fk or raw).key(call_args(calls[0])[0])
     tp, up_ = lt_type(prev[0])
     tc, uc_ = lt_type(cur[0])
     if tp is None or tc is None:
@@ -334,17 +335,22 @@ def run(ctx):
     # ---- C01-rule
     u, f = ctx.fn('cctz::TimeZoneInfo::ExtendTransitions')
     raw = Keys(u)
+    fk_ = ctx.facts(f).keys      # (snapshot locals of the rule's offsets and dates are keyed as what they stand for)
     tdecl = {x['name']: x for x in walk(f) if x.get('kind') == 'VarDecl' and qtype(x).endswith('Transition') and kids(x)}
     offs = {}
     for x in walk(f):
         if x.get('kind') == 'VarDecl' and kids(x) and 'TransOffset' in raw.key(kids(x)[-1]):
-            m = re.search(r'\.(dst_start|dst_end)\)$', raw.key(kids(x)[-1]))
+            m = re.search(r'\.(dst_start|dst_end)\)$', fk_.key(kids(x)[-1]))
             if m:
                 offs[m.group(1)] = '%s#%s' % (x['name'], x['id'])
     assigns = {}
     for x in walk(f):
         if x.get('kind') == 'BinaryOperator' and x.get('opcode') == '=' and raw.key(kids(x)[0]).endswith('.unix_time'):
-            assigns[raw.key(kids(x)[0]).split('#')[0]] = raw.key(kids(x)[1])
+            ak_ = fk_.key(kids(x)[1])
+            for nm_, k_ in offs.items():
+                # (the offset locals themselves are named by the expected form below: keep them as names)
+                pass
+            assigns[raw.key(kids(x)[0]).split('#')[0]] = ak_
     ti = {}
     for nm, d in tdecl.items():
         il = peel(kids(d)[-1])
@@ -371,9 +377,13 @@ def run(ctx):
         ok2 = g_[0] == ('dst_offset' if is_dst else 'std_offset') and g_[2] == ('dst_abbr' if is_dst else 'std_abbr')
         detail.append('%s: type(%s,%s,%s) time=%s' % (nm, g_[0], g_[1], g_[2], re.sub(r'#0x[0-9a-f]+', '', rhs)))
         pair_ok = pair_ok and ok1 and ok2
-    ctx.check(pair_ok and len(assigns) == 2, 'C01-rule', 'generated transitions pair rule, offset-before and type correctly', f,
-              'a generated transition combines the wrong rule date, the wrong offset for the local->UTC conversion or the wrong '
-              'type: ' + '; '.join(detail), construct='rule:pairing', detail='; '.join(detail)[:200])
+    unfound = not assigns or all(gtt.get(ti.get(nm_)) is None for nm_ in assigns)
+    ctx.check3(None if unfound else (pair_ok and len(assigns) == 2), 'C01-rule',
+               'generated transitions pair rule, offset-before and type correctly', f,
+               'a generated transition combines the wrong rule date, the wrong offset for the local->UTC conversion or the wrong '
+               'type: ' + '; '.join(detail), construct='rule:pairing', detail='; '.join(detail)[:200],
+               unknown_why='the two Transition objects a generated year is built in (each a local initialised with its type index, '
+               'its instant assigned from the rule offset) were not identified')
     # both transitions of a generated year are appended together: once the earlier one has been pushed no path leaves the
     # iteration (or the helper the year was factored into) without pushing the later one
     from .loader import _reach_from
@@ -417,7 +427,7 @@ def run(ctx):
             raw.key(call_args(x)[0]).endswith('.prev_civil_sec')]
     cur = [x for x in walk(f) if x.get('kind') == 'CXXOperatorCallExpr' and callee(x) and callee(x)[1].get('name') == 'operator=' and
            raw.key(call_args(x)[0]).endswith('.civil_sec') and not raw.key(call_args(x)[0]).endswith('prev_civil_sec')]
-    verdict, why = _civil_types(u, f, g, dom, raw, prev, cur)
+    verdict, why = _civil_types(u, f, g, dom, raw, prev, cur, fk=ctx.facts(f).keys)
     ctx.check3(verdict, 'C01-rule', 'each transition: previous civil second under the type in force before it, civil second under its own type', f,
                'Load computes prev_civil_sec/civil_sec with the wrong transition type (or not starting from the default type): %s' % why,
                construct='rule:civil', unknown_why=why)
@@ -435,9 +445,8 @@ def run(ctx):
     def days_of(leap, fmt, fields):
         ai = AI(G, Observer())
         st = St()
-        st.mem[(pst[0]['id'],)] = Int(leap, leap)
-        st.mem[(pst[1]['id'],)] = Int(0, 6)
-        st.refs[pst[2]['id']] = ('PT',)
+        if not c12.bind_trans_offset(ai, ut, ft, st, Int(leap, leap), Int(0, 6)):
+            return 'unbound'
         st.mem[('PT', 'date', 'fmt')] = Int(fmt, fmt)
         for k_, v_ in fields.items():
             st.mem[('PT', 'date') + k_] = v_
@@ -451,7 +460,10 @@ def run(ctx):
             return None
         return (out.lo // SPD, out.hi // SPD)
     FMT = dict(J=0, N=1, M=2)
-    for leap in (0, 1):
+    if days_of(0, 0, {('j', 'day'): Int(1, 1)}) == 'unbound':
+        ctx.unknown('C01-days', 'day offsets denoted by the rule dates', ft, 'the inputs of TransOffset (leap-year flag, weekday of '
+                    'January 1st, rule date) were not identified in its parameter list', construct='days:signature')
+    for leap in ((0, 1) if days_of(0, 0, {('j', 'day'): Int(1, 1)}) != 'unbound' else ()):
         yr = 'leap year' if leap else 'common year'
         # Jn: n counts the days of a common year; Feb 29 is never denoted
         cases = [((1, 59), (0, 58)), ((60, 365), (59 + leap, 364 + leap))]
@@ -511,10 +523,21 @@ def run(ctx):
                     continue
                 sets = [y for y in walk(f) if y.get('kind') == 'BinaryOperator' and y.get('opcode') == '=' and
                         (peel(kids(y)[0]).get('referencedDecl') or {}).get('id') == did]
+                # (the byte may be decoded into a const local that is both stored as the entry's type_index and tested)
+                carried = set()
+                for y_ in walk(f):
+                    if y_.get('kind') == 'BinaryOperator' and y_.get('opcode') == '=' and raw.key(kids(y_)[0]).endswith('.type_index'):
+                        dl_ = c12._decoded_local(u, kids(y_)[1])
+                        if dl_ is not None:
+                            carried.add(raw.key(dl_))
+
+                def _is_ti(k_):
+                    return k_.endswith('.type_index') or k_ in carried
+
                 def _sets_under_type0(y):
                     # flag = true under  type_index == 0 ;  or  flag = flag || (type_index == 0)
                     if F.keys.key(kids(y)[1]) == 'n:1' and any(
-                            op == '==' and 'n:0' in (a, b) and (a + b).replace('n:0', '').endswith('.type_index')
+                            op == '==' and 'n:0' in (a, b) and _is_ti(a if b == 'n:0' else b)
                             for (op, a, b) in (F.facts_at_ast(y) or ())):
                         return True
                     r_ = peel(kids(y)[1])
